@@ -754,6 +754,18 @@ class Fmt(object):
         return 'Fmt(%%0%d%s, %s)' % (self.width, 'd' if self.base == 10 else 'x', self.v)
 
 
+class Opaque(object):
+    """str() of a symbolic real (or any term whose rendering is not modelled): an atom that is only
+    ever compared for equality of the underlying term (assumption: rendering is injective)."""
+    __slots__ = ('v',)
+
+    def __init__(self, v):
+        self.v = v
+
+    def __repr__(self):
+        return 'Opaque(%s)' % (self.v,)
+
+
 class SymStr(object):
     """A string made of literal pieces and formatted symbolic ints (never a free string)."""
 
@@ -799,6 +811,9 @@ class SymStr(object):
 
     def __ne__(self, o):
         return NOT(self.__eq__(o))
+
+    def encode(self, *a):
+        return self
 
     def startswith(self, p):
         if isinstance(p, str) and self.atoms and isinstance(self.atoms[0], str):
@@ -997,7 +1012,7 @@ class sym_str(metaclass=_StrMeta):
         if isinstance(x, SymStr):
             return x
         if isinstance(x, Sym):
-            raise Unsupported('str() of %s' % type(x).__name__)
+            return SymStr([Opaque(x)])
         return builtins.str(x, *a)
 
     join = builtins.str.join
